@@ -77,7 +77,7 @@ def run_history(case):
                         impl(normal.sample, 0.0, 1.0)
                 elif kind == "unseeded_program":
                     p = op["p"] % len(fns)
-                    if "scan" not in str(shapes[p]) and "cond" not in str(shapes[p]):
+                    if "scan" not in str(shapes[p]) and "cond" not in str(shapes[p]) and "remat" not in str(shapes[p]):
                         impl(fns[p])
                     else:
                         impl(normal.sample, 0.0, 1.0)
@@ -113,6 +113,9 @@ def run_history(case):
                     if same:
                         fails.append((f"distinct_keys_same_draws{K}", f"step {step}: positions {same[:3]} are identical for two different keys"))
         except ImplError as e:
+            if "remat" in K and type(e.exc).__name__ == "LoweringSamplePrimitiveToMLIRException":
+                info["rejected"] = info.get("rejected", 0) + 1  # seed may refuse constructs it does not interpret (C14); nothing to compare
+                continue
             return [(f"raises[{op.get('mode', op.get('kind'))}]:{e.sig()}{K}", f"step {step} {op}: {e}")], info
         t = (p, k, argname)
         if t not in table:
@@ -146,7 +149,7 @@ def run_history(case):
     return fails, info
 
 
-def histories():
+def histories(remat=False):
     from hypothesis import strategies as st
 
     run = st.fixed_dictionaries({"op": st.just("run"), "p": st.integers(0, 2), "k": st.integers(0, 1),
@@ -157,8 +160,11 @@ def histories():
         st.fixed_dictionaries({"op": st.just("interfere"), "kind": st.just("clear_caches")}),
         st.fixed_dictionaries({"op": st.just("interfere"), "kind": st.just("other_shape"), "p": st.integers(0, 2)}),
     )
-    return st.fixed_dictionaries({"programs": st.lists(seedir.shapes(max_leaves=4), min_size=1, max_size=2), "key": st.integers(0, 2**30),
-                                  "ops": st.lists(st.one_of(run, run, interfere), min_size=6, max_size=14)})
+    progs = st.lists(seedir.shapes(max_leaves=4), min_size=1, max_size=2)
+    if remat:  # programs seed may refuse (then nothing is compared); if it accepts them the result must still be pure
+        progs = st.lists(st.builds(lambda s, k: ["remat", s, k], seedir.shapes(max_leaves=2), st.sampled_from(["checkpoint", "custom_jvp"])), min_size=1, max_size=1)
+    return st.fixed_dictionaries({"programs": progs, "key": st.integers(0, 2**30),
+                                  "ops": st.lists(st.one_of(run, run, interfere), min_size=6, max_size=14 if not remat else 8)})
 
 
 def one_case(ctx, case):
@@ -169,6 +175,8 @@ def one_case(ctx, case):
     ctx.case(case, nt, [f"C06.mode_{m}" for m in sorted(info["modes"])] + [f"C06.prog_with_{k}" for k in kinds] + (["C06.repeat_after_interference"] if info["repeats_after_interference"] else []),
              sample={**case, "info": {**info, "modes": sorted(info["modes"])}})
     ctx.count("C06.ops_total", info["ops"])
+    if info.get("rejected"):
+        ctx.count("C06.runs_refused_by_seed_with_the_dedicated_error", info["rejected"])
     for b, w in fails:
         ctx.fail(b, w, case)
 
@@ -176,6 +184,7 @@ def one_case(ctx, case):
 def run_shard(ctx):
     P = plan(ctx)
     drive(ctx, histories(), P["n_histories"], lambda c: one_case(ctx, c), "hist")
+    drive(ctx, histories(remat=True), P.get("n_remat", 2), lambda c: one_case(ctx, c), "remat")
 
 
 def replay(case):
